@@ -276,8 +276,11 @@ pub fn gen_world(r: &mut Rng) -> Vec<Tree> {
         SocketAddr::new(IpAddr::V6(Ipv6Addr::LOCALHOST), 3002),
     ];
     let stranger = SocketAddr::new(IpAddr::V4(Ipv4Addr::new(66, 6, 6, 6)), 666);
-    let nclients = r.range(1, 3) as usize;
-    let ids = [1u64, if r.chance(1, 3) { 1 } else { 2 }, 3];
+    // half of the histories are built around one adversarial scenario, played early (while the state is simple) and once
+    // more later; the other half mixes everything
+    let focus: Option<usize> = if r.chance(1, 2) { Some(*r.pick(&[18usize, 19, 20, 21, 22, 23, 24, 25, 26, 27, 28, 29, 29, 30, 8, 12])) } else { None };
+    let nclients = if focus == Some(30) { 3 } else { *r.pick(&[1usize, 2, 2, 3, 3]) };
+    let ids = [1u64, if focus == Some(30) || r.chance(1, 3) { 1 } else { 2 }, 3];
     let mut next_token = 0u64;
     let mut new_token = |r: &mut Rng, ops: &mut Vec<Tree>, k: usize, now: u64| -> u64 {
         let tk = next_token;
@@ -356,9 +359,6 @@ pub fn gen_world(r: &mut Rng) -> Vec<Tree> {
     }
     let mut unsecure_tokens = 0u64;
     let steps = r.range(25, 90);
-    // half of the histories are built around one adversarial scenario, played early (while the state is simple) and once
-    // more later; the other half mixes everything
-    let focus: Option<usize> = if r.chance(1, 2) { Some(*r.pick(&[18usize, 19, 20, 21, 22, 23, 24, 25, 26, 27, 28, 29, 29, 8, 12])) } else { None };
     for step in 0..steps {
         let k = r.below(nclients as u64);
         let id = ids[k as usize];
@@ -376,7 +376,7 @@ pub fn gen_world(r: &mut Rng) -> Vec<Tree> {
             }
         };
         // (the replay window edge, case 27, costs 260 sealed datagrams: it is played in focused histories only)
-        let w: [u32; 31] = [14, 16, 14, 3, 3, 6, 9, 9, 5, 2, 2, 2, 3, 3, 3, 2, 10, 2, 2, 3, 4, 3, 4, 3, 2, 3, 4, 0, 2, 3, 2];
+        let w: [u32; 32] = [14, 16, 14, 3, 3, 6, 9, 9, 5, 2, 2, 2, 3, 3, 3, 2, 10, 2, 2, 3, 4, 3, 4, 3, 2, 3, 4, 0, 2, 3, 2, 2];
         let case = match focus {
             Some(f) if step == 3 || step == 14 => f,
             _ => r.weighted(&w),
@@ -538,6 +538,27 @@ pub fn gen_world(r: &mut Rng) -> Vec<Tree> {
                 ops.push(l(vec![n(116u8)]));
             }
             23 => ops.push(l(vec![n(158u8), n(k), n(r.range(0, 300)), b(&r.bytes(300))])),
+            30 => {
+                // two sessions racing for one client id across a hole in the slot table: both are challenged, the first
+                // answers and connects, a client in a lower slot leaves, then the second answers
+                if nclients == 3 && ids[0] == ids[1] {
+                    ops.push(l(vec![n(115u8), n(8u8)]));
+                    ops.push(l(vec![n(170u8), n(2u8), n(4u8)]));
+                    for j in [0u64, 1] {
+                        ops.push(l(vec![n(103u8), n(j), n(250 * MS)]));
+                        ops.push(l(vec![n(150u8), n(j), n(0u8), n(0u8), n(0u8), n(0u8)]));
+                    }
+                    ops.push(l(vec![n(152u8), n(0u8), n(0u8), n(0u8), n(0u8), n(0u8)]));
+                    ops.push(l(vec![n(103u8), n(0u8), n(250 * MS)]));
+                    ops.push(l(vec![n(150u8), n(0u8), n(0u8), n(0u8), n(0u8), n(0u8)]));
+                    ops.push(l(vec![n(113u8), n(ids[2])]));
+                    ops.push(l(vec![n(152u8), n(1u8), n(0u8), n(0u8), n(0u8), n(0u8)]));
+                    ops.push(l(vec![n(103u8), n(1u8), n(250 * MS)]));
+                    ops.push(l(vec![n(150u8), n(1u8), n(0u8), n(0u8), n(0u8), n(0u8)]));
+                    ops.push(l(vec![n(116u8)]));
+                    ops.push(l(vec![n(114u8), n(ids[0]), b(&r.bytes(4))]));
+                }
+            }
             29 => {
                 // a hole in the slot table: everybody connects, the one that connected first leaves, then the others are
                 // addressed by id and by address (payloads both ways, keep-alives, a kick, a disconnect packet)
